@@ -110,7 +110,10 @@ class DensityMatrixCompiler(CompilerBase):
             )
             state.apply_unitary(unitary)
 
-        elif isinstance(op, ops.ClassicalControlledPairOperationBase):
+        elif isinstance(
+            op, ops.ClassicalControlledPairOperationBase
+        ) and not isinstance(op, ops.MeasurementCNOTandReset):
+            # (MeasurementCNOTandReset derives from the same base class and has its own branch below)
             projectors = dm.projectors_zbasis(
                 n_quantum, q_index(op.control, op.control_type)
             )
